@@ -35,7 +35,7 @@ getcontext().prec = 60
 PI = Decimal("3.14159265358979323846264338327950288419716939937510582097494")
 JNS = ["j0", "J", "j2", "j4", "j6"]
 QS = [0.0, 0.5, 3.0, 12.0, 30.0]
-SCRATCH = "/tmp/loaders-scratch/c20-%d" % os.getpid()
+SCRATCH = None      # temporary directory for the generated DABAX files (created and removed per run)
 
 
 # =========================================================================== observation
@@ -573,7 +573,18 @@ def gen_f0(rng, symbols):
 
 def run_generated(run: Run, n, symbols, mods):
     covalent_radius, crystal_structure, xsf, magnetic_ff, cromermann, core = mods
-    os.makedirs(SCRATCH, exist_ok=True)
+    import shutil
+    import tempfile
+    global SCRATCH
+    SCRATCH = tempfile.mkdtemp(prefix="ptv-c20-")
+    try:
+        _run_generated(run, n, symbols, mods)
+    finally:
+        shutil.rmtree(SCRATCH, ignore_errors=True)
+
+
+def _run_generated(run: Run, n, symbols, mods):
+    covalent_radius, crystal_structure, xsf, magnetic_ff, cromermann, core = mods
     for i in range(n):
         which = ["cordero", "crystal", "spectral", "cfml", "f0"][i % 5]
         rng = run.rng
